@@ -132,10 +132,13 @@ func init() {
 		// (bounded liveness: a run that keeps arming timers without finishing
 		// comes back instead of running into the step limit)
 		vrt + "QuiesceTimers": func(fr *frame, a []value) value {
-			w := fr.i.world
-			w.fireBudget, w.fireBudgetOn = a[1].(int), true
-			fr.i.quiesceAll()
-			w.fireBudgetOn = false
+			i := fr.i
+			for n := a[1].(int); ; n-- {
+				i.quiesceAll()
+				if n <= 0 || !i.world.fireEarliestTimer() {
+					break
+				}
+			}
 			return nil
 		},
 		// Served(addr): the handler of the server listening on addr (engine only)
